@@ -120,7 +120,8 @@ TPre == /\ IsEvent("pre") /\ pc = "run" /\ Ev.r = run.r
                ok3 == NoDup(Ev.list) /\ Ev.sorted
            IN /\ Judge(ok1, IF c.icase THEN {"C04", "C01"} ELSE {"C01", "C02"}, "pre-set", "")
               /\ Judge(ok2, ExactProps(c), "pre-lang", "")
-              /\ Judge(ok3, {"C10"}, "pre-canonical", "")
+              \* order / duplicate-freeness of the internal list is Level-2 detail: a note, never a verdict
+              /\ Judge(ok3, {"TOOL"}, "pre-not-canonical", "")
               /\ run' = [run EXCEPT !.pre = Ev.list, !.firstbad = FirstBad(ok1 /\ ok2, "pre")]
         /\ pc' = "pre" /\ l' = l + 1 /\ cnt' = Bump({"pre"})
         /\ UNCHANGED <<G, tcs, memo>>
